@@ -17,7 +17,12 @@ VARIABLES n, st, bad
 tvars == <<n, st, bad>>
 
 Count(s, x) == Cardinality({i \in 1..Len(s) : s[i] = x})
-BagEq(s, t) == Len(s) = Len(t) /\ \A x \in ToSet(s) \cup ToSet(t) : Count(s, x) = Count(t, x)
+(* equality as multisets; the common case (all distinct) is decided on the sets, which matters for runs of 10^4..10^5 elements *)
+BagEq(s, t) ==
+  /\ Len(s) = Len(t)
+  /\ LET S == ToSet(s) IN
+       /\ S = ToSet(t)
+       /\ (Cardinality(S) = Len(s) \/ \A x \in S : Count(s, x) = Count(t, x))
 V1(ps, q) == [ps |-> ps, q |-> q]
 
 WrongOps == {"push_wrong", "insert_wrong", "swap_wrong", "splice_wrong", "downcast_q"}
@@ -192,12 +197,15 @@ FreshFor(stb, ev) ==
 (* notes by which the driver reports that something the library REPORTED about itself is false *)
 BadNotes == {"wrong_type_admitted", "badtype", "bad_ce_type", "bad_ce_len", "bad_ce_value", "bad_parts", "bad_parts_clone", "shared_storage", "bad_spare"}
 
+AddProps(S, ps) == {[vv EXCEPT !.ps = @ \o ps] : vv \in S}
+(* storage misbehaviour of a vector that was produced by clone() or rebuilt from raw parts also counts against C08 / C17: *)
+(* "independent, separately owned storage" resp. "indistinguishable from the original under all further operations"     *)
+Derived(stb, a) == IF a.op = "raw_roundtrip" \/ (\E w \in Vecs : stb.v[w].gen = 1) THEN <<"C17", "C08">> ELSE <<>>
+
 IsFault(ev) == "fault" \in DOMAIN ev
 DropLive(stb, ev) ==
   ~Cfg.drop \/ ~Cfg.ids \/
-  (\A j \in 1..Len(ev.drops) :
-      /\ ev.drops[j] \in KnownIds(stb, ev)
-      /\ Count(ev.drops, ev.drops[j]) = 1)
+  (LET D == ToSet(ev.drops) IN D \subseteq KnownIds(stb, ev) /\ Cardinality(D) = Len(ev.drops))   \* each once, each known
 TdMemViol(ev) ==
   IF ev.td.skip THEN {}
   ELSE ProtoViol(ev.td.mem, TRUE)
@@ -269,7 +277,13 @@ Judge(stb, ev) ==
       hintOk == x.hint = -1 \/ (ev.hint[1] = x.hint /\ ev.hint[2] = x.hint /\ ev.hint[3] = x.hint)
       typeOk == \A j \in 1..Len(ev.note) : ev.note[j] \notin BadNotes
       ceOk == a.op # "ce_probe" \/ ~Cfg.ids \/
-              Len(ev.clones) = (IF Cfg.cloneable THEN (IF stb.v[a.v].el = <<>> THEN 1 ELSE 3) ELSE 0)
+              (* the twin takes a fresh value (room >= 1) and a lazy clone of the source's first element (room >= 2, source non-empty),   *)
+              (* then is cloned itself: clones = (lazy ? 1 : 0) + elements in the twin                                              *)
+              LET room == IF a.via = "empty" THEN 0 ELSE IF a.via = "stackn1" THEN 1
+                          ELSE IF a.via = "same" /\ Cfg.fixed THEN (IF Cfg.fcap < 2 THEN Cfg.fcap ELSE 2) ELSE 2
+                  lazy == IF room >= 2 /\ stb.v[a.v].el # <<>> THEN 1 ELSE 0
+                  held == (IF room >= 1 THEN 1 ELSE 0) + lazy
+              IN Len(ev.clones) = (IF Cfg.cloneable THEN lazy + held ELSE 0)
       viol0 ==
            (IF ~resOk  THEN {V1(P, "result")} ELSE {})
       \cup (IF ~stOk   THEN {V1(P \o (IF x.lat = "liar" THEN <<"C06">> ELSE <<>>), IF x.lat = "exact" THEN "elems" ELSE IF x.lat = "forget" THEN "forget_post" ELSE "panic_post")} ELSE {})
@@ -296,7 +310,7 @@ Judge(stb, ev) ==
       capv == (IF diverged THEN {} ELSE CapViol(stb, x, [ev EXCEPT !.mem = ProbeMem(a, @)])) \cup ProtoViol(ProbeMem(a, ev.mem), post.canary)
               \cup ProtoViol([j \in 1..Len(ev.mem) |-> IF ev.mem[j][1] \in {1, 2, 3} THEN <<0, 0, 0, 0, 0, 0>> ELSE ev.mem[j]], post.canary)
       tdv == IF diverged THEN {} ELSE TdViol(s2, ev, (IF IsForget(a) THEN <<"C07">> ELSE <<>>) \o (IF "dyn" \in DOMAIN ev THEN <<"C06">> ELSE <<>>))
-  IN [st |-> s2, bad |-> diverged, viol |-> viol0 \cup capv \cup tdv \cup TdMemViol(ev)]
+  IN [st |-> s2, bad |-> diverged, viol |-> viol0 \cup AddProps(capv \cup TdMemViol(ev), Derived(stb, a)) \cup tdv]
 
 ---------------------------------------------------------------------------
 TInit == /\ n = 1
